@@ -44,15 +44,25 @@ func createSchedulers(cl *cluster, oc *schedule.OperatorController, nRegions int
 	}
 	plain := []string{"", ""}
 	steps := []func() error{
-		func() error { return mk(schedulers.BalanceRegionType, schedule.ConfigSliceDecoder(schedulers.BalanceRegionType, plain)) },
-		func() error { return mk(schedulers.BalanceLeaderType, schedule.ConfigSliceDecoder(schedulers.BalanceLeaderType, plain)) },
+		func() error {
+			return mk(schedulers.BalanceRegionType, schedule.ConfigSliceDecoder(schedulers.BalanceRegionType, plain))
+		},
+		func() error {
+			return mk(schedulers.BalanceLeaderType, schedule.ConfigSliceDecoder(schedulers.BalanceLeaderType, plain))
+		},
 		func() error { return mk(schedulers.HotRegionType, schedule.ConfigJSONDecoder([]byte("null"))) },
-		func() error { return mk(schedulers.ShuffleLeaderType, schedule.ConfigSliceDecoder(schedulers.ShuffleLeaderType, plain)) },
-		func() error { return mk(schedulers.ShuffleRegionType, schedule.ConfigSliceDecoder(schedulers.ShuffleRegionType, plain)) },
+		func() error {
+			return mk(schedulers.ShuffleLeaderType, schedule.ConfigSliceDecoder(schedulers.ShuffleLeaderType, plain))
+		},
+		func() error {
+			return mk(schedulers.ShuffleRegionType, schedule.ConfigSliceDecoder(schedulers.ShuffleRegionType, plain))
+		},
 		func() error {
 			return mk(schedulers.ShuffleHotRegionType, schedule.ConfigSliceDecoder(schedulers.ShuffleHotRegionType, []string{"8"}))
 		},
-		func() error { return mk(schedulers.LabelType, schedule.ConfigSliceDecoder(schedulers.LabelType, plain)) },
+		func() error {
+			return mk(schedulers.LabelType, schedule.ConfigSliceDecoder(schedulers.LabelType, plain))
+		},
 		func() error {
 			end := ""
 			if rng.Intn(2) == 0 {
